@@ -96,7 +96,11 @@ func (l living) lines(birthYear int) []string {
 	if l.role == "death-record-removed-after-first-publishing" {
 		out = append(out, "1 DEAT Y") // wrongly recorded; removed through the API between two publishings
 	}
-	out = append(out, fmt.Sprintf("1 NICK %snick%s", l.mk, v), fmt.Sprintf("1 NOTE %snote%s", l.mk, v), fmt.Sprintf("1 OCCU %soccu%s", l.mk, v), "2 DATE "+fmt.Sprint(birthYear+20+l.variant))
+	out = append(out, fmt.Sprintf("1 NICK %snick%s", l.mk, v), fmt.Sprintf("1 NOTE %snote%s", l.mk, v), fmt.Sprintf("1 OCCU %soccu%s", l.mk, v), "2 DATE "+fmt.Sprint(birthYear+20+l.variant),
+		// places outside the events: below an attribute, below a user-defined tag, and one level deeper
+		fmt.Sprintf("2 PLAC %soccuplace%s, %socculand%s", l.mk, v, l.mk, v),
+		fmt.Sprintf("1 _MILT %smilt%s", l.mk, v), fmt.Sprintf("2 PLAC %smiltplace%s, %smiltland%s", l.mk, v, l.mk, v),
+		"1 EDUC", "2 DATE "+fmt.Sprint(birthYear+18), fmt.Sprintf("2 NOTE %sedunote%s", l.mk, v), fmt.Sprintf("3 PLAC %sdeepplace%s, %sdeepland%s", l.mk, v, l.mk, v))
 	return out
 }
 
@@ -178,7 +182,7 @@ func publish(k kase, variant int) (*pub.MemWriter, [][]string, error) {
 		cliRefused = refused
 		return w, markers, nil
 	}
-	if k.Prior != "" {
+	if k.Prior != "" && k.Prior != "show-constructed-first" {
 		pub.Publish(doc, pub.Options(k.Mask, visibility(k.Prior)), k.Jobs, 0)
 	}
 	for i, role := range k.Roles {
@@ -193,6 +197,15 @@ func publish(k kase, variant int) (*pub.MemWriter, [][]string, error) {
 				}
 			}
 		}
+	}
+	if k.Prior == "show-constructed-first" {
+		// a private and a public site of the same document object: both publishers exist before either publishes
+		p1 := ghtml.NewPublisher(doc, pub.Options(k.Mask, visibility("show")))
+		p2 := ghtml.NewPublisher(doc, pub.Options(k.Mask, visibility(k.Living)))
+		p1.Publish(&pub.MemWriter{}, k.Jobs)
+		w := &pub.MemWriter{}
+		perr := p2.Publish(w, k.Jobs)
+		return w, markers, perr
 	}
 	w, perr := pub.Publish(doc, pub.Options(k.Mask, visibility(k.Living)), k.Jobs, 0)
 	return w, markers, perr
@@ -457,6 +470,7 @@ func cases(tier string) []kase {
 					if living != "show" && jobs == 1 && (mask == 63 || mask == 5) {
 						// the same document published with living people shown first
 						out = append(out, kase{Roles: rs, Living: living, Mask: mask, Jobs: jobs, Prior: "show"})
+						out = append(out, kase{Roles: rs, Living: living, Mask: mask, Jobs: jobs, Prior: "show-constructed-first"})
 					}
 				}
 			}
